@@ -10,6 +10,12 @@
 import LyonVerif.Model.Geom.Intersect
 import LyonVerif.Lemmas.IxField
 
+geom_all Lyon.Tri
+geom_all Lyon.Quad
+geom_all Lyon.LineEq
+geom_all Lyon.Roots
+geom_all Lyon.Cubic
+
 set_option linter.unusedSectionVars false
 set_option linter.unusedVariables false
 
@@ -81,5 +87,591 @@ theorem seg_intersection_iff (s o : Seg K) (t u : K) :
         · rintro ⟨_, _, _, _, _, _, hs⟩
           obtain ⟨ht, hu⟩ := hse.mp hs
           rw [ht, hu]
+
+/-- non-vacuity: the crossing diagonals of the unit square -/
+example : (⟨⟨0, 0⟩, ⟨1, 1⟩⟩ : Seg ℚ).intersectionT ⟨⟨0, 1⟩, ⟨1, 0⟩⟩ = some (1/2, 1/2) := by
+  rw [seg_intersection_iff]
+  refine ⟨by simp [P.mk.injEq], by simp only [geom]; norm_num, by norm_num, by norm_num, by norm_num, by norm_num, ?_⟩
+  simp only [geom, P.mk.injEq]; norm_num
+
+/-- the reported parameters are the only pair of parameters (in or out of range) at which the two
+carrier lines meet: uniqueness of `(t, u)`. -/
+theorem seg_intersection_unique (s o : Seg K) (t u t' u' : K)
+    (h : s.intersectionT o = some (t, u)) (h' : s.sample t' = o.sample u') : t' = t ∧ u' = u := by
+  obtain ⟨_, hd, _, _, _, _, hs⟩ := (seg_intersection_iff s o t u).mp h
+  have hd' : s.ixDet o ≠ 0 := hd
+  obtain ⟨a1, a2⟩ := (sample_eq_iff s o t u hd').mp hs
+  obtain ⟨b1, b2⟩ := (sample_eq_iff s o t' u' hd').mp h'
+  exact ⟨b1.trans a1.symm, b2.trans a2.symm⟩
+
+/-- parallel (in particular collinear / overlapping) segments report none -/
+theorem seg_parallel_none (s o : Seg K) (h : s.toVector.cross o.toVector = 0) :
+    s.intersectionT o = none := by
+  cases hr : s.intersectionT o with
+  | none => rfl
+  | some r =>
+    obtain ⟨t, u⟩ := r
+    exact absurd h ((seg_intersection_iff s o t u).mp hr).2.1
+
+/-- segments with a common endpoint report none (even when they also cross elsewhere, which for
+non-parallel segments cannot happen) -/
+theorem seg_shared_endpoint_none (s o : Seg K) (h : s.b = o.b ∨ s.a = o.a ∨ s.a = o.b ∨ s.b = o.a) :
+    s.intersectionT o = none := by
+  cases hr : s.intersectionT o with
+  | none => rfl
+  | some r =>
+    obtain ⟨t, u⟩ := r
+    exact absurd h ((seg_intersection_iff s o t u).mp hr).1
+
+/-- overlapping segments (two different parameter pairs denote common points) report none -/
+theorem seg_overlap_none (s o : Seg K) (t u t' u' : K) (h1 : s.sample t = o.sample u)
+    (h2 : s.sample t' = o.sample u') (hne : t ≠ t' ∨ u ≠ u') : s.intersectionT o = none := by
+  cases hr : s.intersectionT o with
+  | none => rfl
+  | some r =>
+    obtain ⟨t0, u0⟩ := r
+    obtain ⟨a1, a2⟩ := seg_intersection_unique s o t0 u0 t u hr h1
+    obtain ⟨b1, b2⟩ := seg_intersection_unique s o t0 u0 t' u' hr h2
+    rcases hne with h | h
+    · exact absurd (a1.trans b1.symm) h
+    · exact absurd (a2.trans b2.symm) h
+
+/-- non-vacuity of `seg_overlap_none`: `(0,0)–(2,0)` and `(1,0)–(3,0)` overlap on `[1,2]×{0}` -/
+example : (⟨⟨0, 0⟩, ⟨2, 0⟩⟩ : Seg ℚ).sample (1/2) = (⟨⟨1, 0⟩, ⟨3, 0⟩⟩ : Seg ℚ).sample 0
+    ∧ (⟨⟨0, 0⟩, ⟨2, 0⟩⟩ : Seg ℚ).sample 1 = (⟨⟨1, 0⟩, ⟨3, 0⟩⟩ : Seg ℚ).sample (1/2) ∧ (1/2 : ℚ) ≠ 1 := by
+  refine ⟨?_, ?_, by norm_num⟩ <;> (simp only [geom, P.mk.injEq]; norm_num)
+
+/-- `intersects` ⇔ some pair of parameters in `[0,1]²` denotes a common point, the segments are
+not parallel and share no endpoint. -/
+theorem seg_intersects_iff (s o : Seg K) :
+    s.intersects o = true ↔
+      ¬ (s.b = o.b ∨ s.a = o.a ∨ s.a = o.b ∨ s.b = o.a) ∧ s.toVector.cross o.toVector ≠ 0
+      ∧ ∃ t u, 0 ≤ t ∧ t ≤ 1 ∧ 0 ≤ u ∧ u ≤ 1 ∧ s.sample t = o.sample u := by
+  unfold Seg.intersects
+  rw [Option.isSome_iff_exists]
+  constructor
+  · rintro ⟨⟨t, u⟩, h⟩
+    obtain ⟨h1, h2, h3⟩ := (seg_intersection_iff s o t u).mp h
+    exact ⟨h1, h2, t, u, h3⟩
+  · rintro ⟨h1, h2, t, u, h3⟩
+    exact ⟨(t, u), (seg_intersection_iff s o t u).mpr ⟨h1, h2, h3⟩⟩
+
+/-- `intersection` is the point at the reported parameter, and it lies on both segments -/
+theorem seg_intersection_point (s o : Seg K) (p : P K) (h : s.intersection o = some p) :
+    ∃ t u, s.intersectionT o = some (t, u) ∧ p = s.sample t ∧ p = o.sample u := by
+  unfold Seg.intersection at h
+  cases hr : s.intersectionT o with
+  | none => rw [hr] at h; cases h
+  | some r =>
+    obtain ⟨t, u⟩ := r
+    rw [hr] at h
+    simp only [Option.some.injEq] at h
+    refine ⟨t, u, rfl, h.symm, ?_⟩
+    rw [← h]
+    exact ((seg_intersection_iff s o t u).mp hr).2.2.2.2.2.2
+
+/-! ### Line × line -/
+
+/-- **`Line::intersection` lies on both lines** (`cross(vector, p - point) = 0` for both), for any
+non-negative `EPSILON`; it reports none exactly when `|det| ≤ EPSILON`. -/
+theorem line_intersection_on_both [Eps K] (heps : (0:K) ≤ Eps.epsilon) (l o : Line K) (p : P K)
+    (h : l.intersection o = some p) :
+    l.vector.cross (p - l.point) = 0 ∧ o.vector.cross (p - o.point) = 0 := by
+  unfold Line.intersection at h
+  split at h
+  · cases h
+  · rename_i hdet
+    simp only [Option.some.injEq] at h
+    have hd : l.det o ≠ 0 := by
+      intro h0
+      apply hdet
+      rw [h0, sc_abs, abs_zero]; exact heps
+    have hd' : l.vector.x * o.vector.y - l.vector.y * o.vector.x ≠ 0 := by
+      simpa only [geom] using hd
+    subst h
+    obtain ⟨Dinv, hD1, hD2⟩ : ∃ Dinv, (1:K) / (l.vector.x * o.vector.y - l.vector.y * o.vector.x) = Dinv
+        ∧ Dinv * (l.vector.x * o.vector.y - l.vector.y * o.vector.x) = 1 := ⟨_, rfl, by field_simp⟩
+    simp only [geom, Nat.cast_one, hD1]
+    constructor
+    · linear_combination (l.vector.x * l.point.y - l.vector.y * l.point.x) * hD2
+    · linear_combination (o.vector.x * o.point.y - o.vector.y * o.point.x) * hD2
+
+/-- non-vacuity: lyon's `EPSILON` values (1e-4, 1e-8) are non-negative -/
+example : (0:ℚ) ≤ 1 / 10000 := by norm_num
+
+theorem line_intersection_none_iff [Eps K] (l o : Line K) :
+    l.intersection o = none ↔ |l.vector.cross o.vector| ≤ Eps.epsilon := by
+  unfold Line.intersection
+  split
+  · rename_i h; simpa [Line.det, sc_abs] using h
+  · rename_i h; simpa [Line.det, sc_abs] using h
+
+/-! ### Triangle -/
+
+/-- **`contains_point` ⇔ strictly inside a non-degenerate triangle**: `p` is a convex combination
+of the three vertices with strictly positive weights. -/
+theorem triangle_contains_iff (t : Tri K) (p : P K) :
+    t.containsPoint p = true ↔
+      t.det ≠ 0 ∧ ∃ wa wb wc : K, 0 < wa ∧ 0 < wb ∧ 0 < wc ∧ wa + wb + wc = 1
+        ∧ p.x = wa * t.a.x + wb * t.b.x + wc * t.c.x ∧ p.y = wa * t.a.y + wb * t.b.y + wc * t.c.y := by
+  unfold Tri.containsPoint
+  by_cases hd0 : (t.det == (Scalar.zero : K)) = true
+  · have : t.det = 0 := (beq_zero_iff _).mp hd0
+    rw [if_pos hd0]
+    constructor
+    · intro h; cases h
+    · rintro ⟨h, _⟩; exact absurd this h
+  · rw [if_neg hd0]
+    have hd : t.det ≠ 0 := fun h => hd0 ((beq_zero_iff _).mpr h)
+    have hz : (Scalar.zero : K) = 0 := by simp [Scalar.zero]
+    simp only [Bool.and_eq_true, decide_eq_true_eq, hz, gt_iff_lt]
+    have hd' : (t.b.x - t.a.x) * (t.c.y - t.a.y) - (t.b.y - t.a.y) * (t.c.x - t.a.x) ≠ 0 := by
+      simpa only [geom] using hd
+    obtain ⟨Dinv, hD1, hD2⟩ : ∃ Dinv, (1:K) / ((t.b.x - t.a.x) * (t.c.y - t.a.y) - (t.b.y - t.a.y) * (t.c.x - t.a.x)) = Dinv
+        ∧ Dinv * ((t.b.x - t.a.x) * (t.c.y - t.a.y) - (t.b.y - t.a.y) * (t.c.x - t.a.x)) = 1 := ⟨_, rfl, by field_simp⟩
+    constructor
+    · rintro ⟨⟨ha, hb⟩, hc⟩
+      refine ⟨hd, t.baryC p, t.baryB p, t.baryA p, hc, hb, ha, ?_, ?_, ?_⟩
+      · simp only [Tri.baryC, geom, Nat.cast_one]; ring
+      · simp only [Tri.baryC, Tri.baryA, Tri.baryB, Tri.det, geom, Nat.cast_one, hD1]
+        linear_combination (-(p.x - t.a.x)) * hD2
+      · simp only [Tri.baryC, Tri.baryA, Tri.baryB, Tri.det, geom, Nat.cast_one, hD1]
+        linear_combination (-(p.y - t.a.y)) * hD2
+    · rintro ⟨_, wa, wb, wc, ha, hb, hc, hsum, hx, hy⟩
+      have hwa : wa = 1 - wb - wc := by linear_combination hsum
+      have eA : t.baryA p = wc := by
+        simp only [Tri.baryA, Tri.det, geom, Nat.cast_one, hx, hy, hwa, hD1]
+        linear_combination wc * hD2
+      have eB : t.baryB p = wb := by
+        simp only [Tri.baryB, Tri.det, geom, Nat.cast_one, hx, hy, hwa, hD1]
+        linear_combination wb * hD2
+      have eC : t.baryC p = wa := by
+        unfold Tri.baryC
+        rw [eA, eB]
+        simp only [geom, Nat.cast_one]
+        linear_combination -hsum
+      rw [eA, eB, eC]
+      exact ⟨⟨hc, hb⟩, ha⟩
+
+example : (⟨⟨0, 0⟩, ⟨1, 0⟩, ⟨0, 1⟩⟩ : Tri ℚ).containsPoint ⟨1/5, 1/5⟩ = true := by
+  rw [triangle_contains_iff]
+  refine ⟨by simp only [geom]; norm_num, 3/5, 1/5, 1/5, by norm_num, by norm_num, by norm_num, by norm_num, by norm_num, by norm_num⟩
+
+/-! ### Quadratic Bézier × line
+
+`sqrt` is a parameter; the laws used are hypotheses (`Real.sqrt` satisfies them). -/
+
+section quad
+variable [Transc K]
+
+theorem inUnit_iff (t : K) : inUnit t = true ↔ 0 ≤ t ∧ t ≤ 1 := by
+  unfold inUnit
+  simp [Scalar.zero, Scalar.one]
+
+/-- the polynomial the code solves is the (normalised) line equation evaluated along the curve -/
+theorem quad_line_poly (q : Quad K) (e : LineEq K) (t : K) :
+    q.liA e * t * t + q.liB e * t + q.liC e = e.a * (q.sample t).x + e.b * (q.sample t).y + e.c := by
+  simp only [geom, Nat.cast_one, Nat.cast_ofNat]; ring
+
+/-- the normalised equation vanishes exactly on the line, when `sqrt` of the (positive) squared
+length of the direction is non-zero -/
+theorem line_equation_iff (l : Line K) (p : P K)
+    (hs : Transc.sqrt (-l.vector.y * -l.vector.y + l.vector.x * l.vector.x) ≠ 0) :
+    l.equation.a * p.x + l.equation.b * p.y + l.equation.c = 0 ↔ l.vector.cross (p - l.point) = 0 := by
+  obtain ⟨Dinv, hD1, hD2⟩ : ∃ Dinv, (1:K) / Transc.sqrt (-l.vector.y * -l.vector.y + l.vector.x * l.vector.x) = Dinv
+      ∧ Dinv ≠ 0 := ⟨_, rfl, by rw [one_div]; exact inv_ne_zero hs⟩
+  simp only [geom, Nat.cast_one, hD1]
+  constructor
+  · intro h
+    apply mul_left_cancel₀ hD2
+    linear_combination h
+  · intro h
+    linear_combination Dinv * h
+
+theorem qT1_root (hsq : ∀ x : K, 0 ≤ x → Transc.sqrt x * Transc.sqrt x = x) (a b c : K)
+    (ha : a ≠ 0) (hd : 0 ≤ Quad.qDelta a b c) :
+    a * Quad.qT1 a b c * Quad.qT1 a b c + b * Quad.qT1 a b c + c = 0 := by
+  have hr := hsq _ hd
+  have hσ := sgn_sq b
+  have h : Quad.qT1 a b c * (2 * a) = -b + -(Sgn.signum b) * Transc.sqrt (Quad.qDelta a b c) := by
+    unfold Quad.qT1
+    simp only [geom, Nat.cast_ofNat]
+    exact div_mul_cancel₀ _ (mul_ne_zero two_ne_zero ha)
+  have hΔ : Quad.qDelta a b c = b * b - 4 * a * c := by simp only [geom, Nat.cast_ofNat]
+  have hr2 := hr.trans hΔ
+  set t1 := Quad.qT1 a b c
+  set r := Transc.sqrt (Quad.qDelta a b c)
+  set σ : K := Sgn.signum b
+  apply mul_left_cancel₀ (mul_ne_zero (four_ne_zero (α := K)) ha)
+  linear_combination (t1 * (2 * a) + (-b + -σ * r) + 2 * b) * h + (r * r) * hσ + hr2
+
+theorem qT2_root (a b c : K) (ha : a ≠ 0) (h1 : Quad.qT1 a b c ≠ 0)
+    (hroot : a * Quad.qT1 a b c * Quad.qT1 a b c + b * Quad.qT1 a b c + c = 0) :
+    a * Quad.qT2 a b c * Quad.qT2 a b c + b * Quad.qT2 a b c + c = 0 := by
+  have h2 : Quad.qT2 a b c * (a * Quad.qT1 a b c) = c := by
+    unfold Quad.qT2
+    exact div_mul_cancel₀ _ (mul_ne_zero ha h1)
+  set t1 := Quad.qT1 a b c
+  set t2 := Quad.qT2 a b c
+  apply mul_left_cancel₀ (mul_ne_zero (mul_ne_zero ha h1) h1)
+  linear_combination (t2 * (a * t1) + c + b * t1) * h2 + c * hroot
+
+theorem mem_qPush (x y t : K) (h : t ∈ Quad.qPush x y) :
+    (t = x ∧ inUnit x = true) ∨ (t = y ∧ inUnit y = true) := by
+  unfold Quad.qPush at h
+  rw [List.mem_append] at h
+  rcases h with h | h
+  · by_cases hx : inUnit x = true
+    · rw [if_pos hx, List.mem_singleton] at h; exact Or.inl ⟨h, hx⟩
+    · rw [if_neg hx] at h; cases h
+  · by_cases hy : (inUnit y && !(x == y)) = true
+    · rw [if_pos hy, List.mem_singleton] at h
+      rw [Bool.and_eq_true] at hy
+      exact Or.inr ⟨h, hy.1⟩
+    · rw [if_neg hy] at h; cases h
+
+theorem mem_qPush_of (x y t : K) (hu : inUnit t = true) (h : t = x ∨ t = y) : t ∈ Quad.qPush x y := by
+  unfold Quad.qPush
+  rw [List.mem_append]
+  by_cases hx : t = x
+  · left; rw [← hx, if_pos hu]; exact List.mem_singleton.mpr rfl
+  · have hy : t = y := h.resolve_left hx
+    right
+    subst hy
+    have hne : (x == t) = false := by
+      cases hb : (x == t)
+      · rfl
+      · exact absurd ((sc_beq x t).mp hb).symm hx
+    rw [hu, hne]
+    exact List.mem_singleton.mpr rfl
+
+/-- **Soundness of the root computation, quadratic branch (`a ≠ 0`).**  Every returned `t` is in
+`[0, 1]` and is a root of `a t² + b t + c`. -/
+theorem quad_solve_sound (hsq : ∀ x : K, 0 ≤ x → Transc.sqrt x * Transc.sqrt x = x) (a b c : K)
+    (ha : a ≠ 0) (t : K) (ht : t ∈ Quad.solve a b c) :
+    0 ≤ t ∧ t ≤ 1 ∧ a * t * t + b * t + c = 0 := by
+  unfold Quad.solve at ht
+  have ha' : ¬ (a == (Scalar.zero : K)) = true := fun h => ha ((beq_zero_iff _).mp h)
+  have hz : (Scalar.zero : K) = 0 := by simp [Scalar.zero]
+  rw [if_neg ha'] at ht
+  by_cases hd : Quad.qDelta a b c ≥ (Scalar.zero : K)
+  · rw [if_pos hd] at ht
+    rw [hz] at hd
+    have r1 := qT1_root hsq a b c ha hd
+    by_cases h10 : (Quad.qT1 a b c == (Scalar.zero : K)) = true
+    · rw [if_pos h10, List.mem_singleton] at ht
+      have : Quad.qT1 a b c = 0 := (beq_zero_iff _).mp h10
+      rw [ht, this]
+      rw [this] at r1
+      exact ⟨le_refl _, zero_le_one, r1⟩
+    · rw [if_neg h10] at ht
+      have h1 : Quad.qT1 a b c ≠ 0 := fun h => h10 ((beq_zero_iff _).mpr h)
+      have r2 := qT2_root a b c ha h1 r1
+      have key : (t = Quad.qT1 a b c ∧ inUnit (Quad.qT1 a b c) = true) ∨ (t = Quad.qT2 a b c ∧ inUnit (Quad.qT2 a b c) = true) := by
+        by_cases hsw : Quad.qT1 a b c > Quad.qT2 a b c
+        · rw [if_pos hsw] at ht; exact (mem_qPush _ _ _ ht).symm
+        · rw [if_neg hsw] at ht; exact mem_qPush _ _ _ ht
+      rcases key with ⟨e, hu⟩ | ⟨e, hu⟩
+      · rw [e]; exact ⟨((inUnit_iff _).mp hu).1, ((inUnit_iff _).mp hu).2, r1⟩
+      · rw [e]; exact ⟨((inUnit_iff _).mp hu).1, ((inUnit_iff _).mp hu).2, r2⟩
+  · rw [if_neg hd] at ht; cases ht
+
+/-- non-vacuity of the premises of `quad_solve_sound` / `quad_solve_complete`: `t² − t` has
+`a = 1 ≠ 0`, discriminant `1 ≥ 0` and the roots `0`, `1` in range (the `sqrt` laws are those of
+`Real.sqrt` on non-negative arguments). -/
+example : (1:ℚ) ≠ 0 ∧ (0:ℚ) ≤ (-1) * (-1) - 4 * 1 * 0 ∧ (1:ℚ) * 1 * 1 + (-1) * 1 + 0 = 0 := by norm_num
+
+/-- **Soundness of `line_intersections_t`, quadratic branch**: every returned parameter is in
+`[0,1]` and its point lies on the line.  (The branch `a = 0` is unsound in the code — see the
+witness below — so the statement carries the hypothesis `liA ≠ 0`.) -/
+theorem quad_line_roots_sound_partial
+    (hsq : ∀ x : K, 0 ≤ x → Transc.sqrt x * Transc.sqrt x = x)
+    (hs0 : ∀ x : K, 0 < x → Transc.sqrt x ≠ 0)
+    (q : Quad K) (l : Line K) (ha : q.liA l.equation ≠ 0) (t : K) (ht : t ∈ q.lineIntersectionsT l) :
+    0 ≤ t ∧ t ≤ 1 ∧ l.vector.cross (q.sample t - l.point) = 0 := by
+  unfold Quad.lineIntersectionsT at ht
+  by_cases hv : (l.vector.x == (Scalar.zero : K) && l.vector.y == (Scalar.zero : K)) = true
+  · rw [if_pos hv] at ht; cases ht
+  · rw [if_neg hv] at ht
+    obtain ⟨h0, h1, hr⟩ := quad_solve_sound hsq _ _ _ ha t ht
+    refine ⟨h0, h1, ?_⟩
+    rw [quad_line_poly] at hr
+    have hpos : 0 < -l.vector.y * -l.vector.y + l.vector.x * l.vector.x := by
+      rw [Bool.and_eq_true, beq_zero_iff, beq_zero_iff] at hv
+      by_contra hn
+      have e : -l.vector.y * -l.vector.y + l.vector.x * l.vector.x = 0 :=
+        le_antisymm (not_lt.mp hn) (add_nonneg (mul_self_nonneg _) (mul_self_nonneg _))
+      have hy : -l.vector.y * -l.vector.y = 0 := by
+        linarith [mul_self_nonneg (-l.vector.y), mul_self_nonneg l.vector.x]
+      have hx : l.vector.x * l.vector.x = 0 := by
+        linarith [mul_self_nonneg (-l.vector.y), mul_self_nonneg l.vector.x]
+      exact hv ⟨mul_self_eq_zero.mp hx, neg_eq_zero.mp (mul_self_eq_zero.mp hy)⟩
+    exact (line_equation_iff l _ (hs0 _ hpos)).mp hr
+
+/-- **Completeness, quadratic branch (`a ≠ 0`)**: every root in `[0,1]` is returned. -/
+theorem quad_solve_complete (hsq : ∀ x : K, 0 ≤ x → Transc.sqrt x * Transc.sqrt x = x)
+    (hs0 : ∀ x : K, 0 ≤ x → 0 ≤ Transc.sqrt x) (a b c t : K) (ha : a ≠ 0)
+    (h0 : 0 ≤ t) (h1 : t ≤ 1) (hroot : a * t * t + b * t + c = 0) : t ∈ Quad.solve a b c := by
+  unfold Quad.solve
+  have ha' : ¬ (a == (Scalar.zero : K)) = true := fun h => ha ((beq_zero_iff _).mp h)
+  have hz : (Scalar.zero : K) = 0 := by simp [Scalar.zero]
+  have hu : inUnit t = true := (inUnit_iff t).mpr ⟨h0, h1⟩
+  have hΔ : Quad.qDelta a b c = b * b - 4 * a * c := by simp only [geom, Nat.cast_ofNat]
+  have hΔ' : Quad.qDelta a b c = (2 * a * t + b) * (2 * a * t + b) := by
+    rw [hΔ]; linear_combination (-4 * a) * hroot
+  have hd : Quad.qDelta a b c ≥ (Scalar.zero : K) := by rw [hz, hΔ']; exact mul_self_nonneg _
+  rw [if_neg ha', if_pos hd]
+  rw [hz] at hd
+  have r1 := qT1_root hsq a b c ha hd
+  have hr := hsq _ hd
+  have hr0 := hs0 _ hd
+  have h : Quad.qT1 a b c * (2 * a) = -b + -(Sgn.signum b) * Transc.sqrt (Quad.qDelta a b c) := by
+    unfold Quad.qT1
+    simp only [geom, Nat.cast_ofNat]
+    exact div_mul_cancel₀ _ (mul_ne_zero two_ne_zero ha)
+  by_cases h10 : (Quad.qT1 a b c == (Scalar.zero : K)) = true
+  · rw [if_pos h10, List.mem_singleton]
+    have e1 : Quad.qT1 a b c = 0 := (beq_zero_iff _).mp h10
+    rw [e1, zero_mul] at h
+    -- b = 0 and sqrt Δ = 0
+    have hb : b = 0 ∧ Transc.sqrt (Quad.qDelta a b c) = 0 := by
+      rcases lt_or_ge b 0 with hb | hb
+      · rw [sgn_neg hb] at h
+        exfalso
+        have : Transc.sqrt (Quad.qDelta a b c) = b := by linear_combination -h
+        linarith
+      · rw [sgn_nonneg hb] at h
+        have : Transc.sqrt (Quad.qDelta a b c) = -b := by linear_combination h
+        constructor <;> linarith
+    have hc : c = 0 := by
+      have : Quad.qDelta a b c = 0 := by rw [← hr, hb.2, zero_mul]
+      rw [hΔ, hb.1] at this
+      have h4 : 4 * a * c = 0 := by linear_combination -this
+      rcases mul_eq_zero.mp h4 with h' | h'
+      · exact absurd h' (mul_ne_zero four_ne_zero ha)
+      · exact h'
+    rw [hb.1, hc] at hroot
+    have : a * (t * t) = 0 := by linear_combination hroot
+    rcases mul_eq_zero.mp this with h' | h'
+    · exact absurd h' ha
+    · rw [e1]; exact mul_self_eq_zero.mp h'
+  · rw [if_neg h10]
+    have h1' : Quad.qT1 a b c ≠ 0 := fun h => h10 ((beq_zero_iff _).mpr h)
+    have h2 : Quad.qT2 a b c * (a * Quad.qT1 a b c) = c := by
+      unfold Quad.qT2
+      exact div_mul_cancel₀ _ (mul_ne_zero ha h1')
+    have key : t = Quad.qT1 a b c ∨ t = Quad.qT2 a b c := by
+      by_cases e : t = Quad.qT1 a b c
+      · exact Or.inl e
+      · right
+        have hne : t - Quad.qT1 a b c ≠ 0 := sub_ne_zero.mpr e
+        apply mul_left_cancel₀ (mul_ne_zero (mul_ne_zero ha h1') hne)
+        linear_combination (Quad.qT1 a b c) * hroot - (Quad.qT1 a b c) * r1
+          - (t - Quad.qT1 a b c) * r1 - (t - Quad.qT1 a b c) * h2
+    by_cases hsw : Quad.qT1 a b c > Quad.qT2 a b c
+    · rw [if_pos hsw]; exact mem_qPush_of _ _ _ hu key.symm
+    · rw [if_neg hsw]; exact mem_qPush_of _ _ _ hu key
+
+/-- **Completeness of `line_intersections_t`, quadratic branch**: a parameter in `[0,1]` whose
+point lies on the line is returned. -/
+theorem quad_line_roots_complete (hsq : ∀ x : K, 0 ≤ x → Transc.sqrt x * Transc.sqrt x = x)
+    (hs0 : ∀ x : K, 0 ≤ x → 0 ≤ Transc.sqrt x) (hs1 : ∀ x : K, 0 < x → Transc.sqrt x ≠ 0)
+    (q : Quad K) (l : Line K) (hv : ¬ (l.vector.x = 0 ∧ l.vector.y = 0))
+    (ha : q.liA l.equation ≠ 0) (t : K) (h0 : 0 ≤ t) (h1 : t ≤ 1)
+    (hon : l.vector.cross (q.sample t - l.point) = 0) : t ∈ q.lineIntersectionsT l := by
+  unfold Quad.lineIntersectionsT
+  have hv' : ¬ (l.vector.x == (Scalar.zero : K) && l.vector.y == (Scalar.zero : K)) = true := by
+    rw [Bool.and_eq_true, beq_zero_iff, beq_zero_iff]; exact hv
+  rw [if_neg hv']
+  have hpos : 0 < -l.vector.y * -l.vector.y + l.vector.x * l.vector.x := by
+    by_contra hn
+    have hy : -l.vector.y * -l.vector.y = 0 := by
+      linarith [mul_self_nonneg (-l.vector.y), mul_self_nonneg l.vector.x]
+    have hx : l.vector.x * l.vector.x = 0 := by
+      linarith [mul_self_nonneg (-l.vector.y), mul_self_nonneg l.vector.x]
+    exact hv ⟨mul_self_eq_zero.mp hx, neg_eq_zero.mp (mul_self_eq_zero.mp hy)⟩
+  apply quad_solve_complete hsq hs0 _ _ _ t ha h0 h1
+  rw [quad_line_poly]
+  exact (line_equation_iff l _ (hs1 _ hpos)).mpr hon
+
+/-- **The linear branch (`a = 0`, `b ≠ 0`) as the code has it**: the single candidate is `c / b`,
+i.e. the solution of `b·t − c = 0` — the equation to solve is `b·t + c = 0`.  It is returned
+iff it lies in `[0,1]`. -/
+theorem quad_solve_linear (b c : K) (hb : b ≠ 0) :
+    Quad.solve 0 b c = if 0 ≤ c / b ∧ c / b ≤ 1 then [c / b] else [] := by
+  unfold Quad.solve
+  have h0 : ((0:K) == (Scalar.zero : K)) = true := (beq_zero_iff _).mpr rfl
+  have hb' : ¬ (b == (Scalar.zero : K)) = true := fun h => hb ((beq_zero_iff _).mp h)
+  rw [if_pos h0, if_neg hb']
+  by_cases hu : inUnit (c / b) = true
+  · rw [if_pos hu, if_pos ((inUnit_iff _).mp hu)]
+  · rw [if_neg hu, if_neg (fun h => hu ((inUnit_iff _).mpr h))]
+
+/-- hence in the linear branch a returned parameter is a root of `b·t + c` only if `c = 0` -/
+theorem quad_solve_linear_root_iff (b c t : K) (hb : b ≠ 0) (ht : t ∈ Quad.solve 0 b c) :
+    (0 * t * t + b * t + c = 0 ↔ c = 0) := by
+  rw [quad_solve_linear b c hb] at ht
+  split at ht
+  · rw [List.mem_singleton] at ht
+    subst ht
+    rw [mul_div_cancel₀ _ hb]
+    constructor
+    · intro h; linarith
+    · intro h; rw [h]; ring
+  · cases ht
+
+/-- degenerate branch `a = 0`, `b = 0` (the curve is parallel to or inside the line): nothing -/
+theorem quad_solve_degenerate (c : K) : Quad.solve 0 0 c = [] := by
+  unfold Quad.solve
+  have h0 : ((0:K) == (Scalar.zero : K)) = true := (beq_zero_iff _).mpr rfl
+  rw [if_pos h0, if_pos h0]
+
+/-- discriminant-zero case of the quadratic branch: exactly one parameter is returned when the
+double root lies in `[0,1]` (the code's `t1 != t2` test removes the copy) -/
+theorem quad_solve_double_root (hsq : ∀ x : K, 0 ≤ x → Transc.sqrt x * Transc.sqrt x = x)
+    (hs0 : ∀ x : K, 0 ≤ x → 0 ≤ Transc.sqrt x) (a b c : K) (ha : a ≠ 0)
+    (hd : Quad.qDelta a b c = 0) (t : K) (ht : t ∈ Quad.solve a b c) : t = -b / (2 * a) := by
+  obtain ⟨_, _, hr⟩ := quad_solve_sound hsq a b c ha t ht
+  have hΔ : Quad.qDelta a b c = b * b - 4 * a * c := by simp only [geom, Nat.cast_ofNat]
+  rw [hΔ] at hd
+  have h2 : (2 * a * t + b) * (2 * a * t + b) = 0 := by linear_combination (4 * a) * hr + hd
+  have h3 : 2 * a * t + b = 0 := mul_self_eq_zero.mp h2
+  rw [eq_div_iff (mul_ne_zero two_ne_zero ha)]
+  linear_combination h3
+
+/-- **Witness (genuine defect, unsound)**: the parabola `(0,0) (1,1) (2,0)` against the vertical
+line `x = −1/2`: the code returns `t = 1/4`, whose point has `x = 1/2` — not on the line. -/
+theorem quad_line_linear_witness_unsound (hs1 : Transc.sqrt (1:K) = 1) :
+    (⟨⟨0, 0⟩, ⟨1, 1⟩, ⟨2, 0⟩⟩ : Quad K).lineIntersectionsT ⟨⟨-1/2, 0⟩, ⟨0, 1⟩⟩ = [1/4]
+    ∧ (⟨0, 1⟩ : P K).cross ((⟨⟨0, 0⟩, ⟨1, 1⟩, ⟨2, 0⟩⟩ : Quad K).sample (1/4) - ⟨-1/2, 0⟩) ≠ 0 := by
+  constructor
+  · unfold Quad.lineIntersectionsT
+    have hv : ¬ (((0:K) == (Scalar.zero : K)) && ((1:K) == (Scalar.zero : K))) = true := by
+      rw [Bool.and_eq_true, beq_zero_iff, beq_zero_iff]; norm_num
+    rw [if_neg hv]
+    have hsq1 : Transc.sqrt ((-1:K) * -1 + 0 * 0) = 1 := by norm_num [hs1]
+    have hA : Quad.liA (⟨⟨0, 0⟩, ⟨1, 1⟩, ⟨2, 0⟩⟩ : Quad K) (Line.equation ⟨⟨-1/2, 0⟩, ⟨0, 1⟩⟩) = 0 := by
+      simp only [geom, Nat.cast_one, hsq1]; norm_num
+    have hB : Quad.liB (⟨⟨0, 0⟩, ⟨1, 1⟩, ⟨2, 0⟩⟩ : Quad K) (Line.equation ⟨⟨-1/2, 0⟩, ⟨0, 1⟩⟩) = -2 := by
+      simp only [geom, Nat.cast_one, hsq1]; norm_num
+    have hC : Quad.liC (⟨⟨0, 0⟩, ⟨1, 1⟩, ⟨2, 0⟩⟩ : Quad K) (Line.equation ⟨⟨-1/2, 0⟩, ⟨0, 1⟩⟩) = -1/2 := by
+      simp only [geom, Nat.cast_one, hsq1]; norm_num
+    rw [hA, hB, hC, quad_solve_linear _ _ (by norm_num)]
+    norm_num
+  · simp only [geom, Nat.cast_one, Nat.cast_ofNat]; norm_num
+
+/-- **Witness (genuine defect, incomplete)**: same parabola, line `x = 1/2`: the crossing at
+`t = 1/4` (point `(1/2, 3/8)`, on the line) is not reported. -/
+theorem quad_line_linear_witness_incomplete (hs1 : Transc.sqrt (1:K) = 1) :
+    (⟨⟨0, 0⟩, ⟨1, 1⟩, ⟨2, 0⟩⟩ : Quad K).lineIntersectionsT ⟨⟨1/2, 0⟩, ⟨0, 1⟩⟩ = []
+    ∧ (⟨0, 1⟩ : P K).cross ((⟨⟨0, 0⟩, ⟨1, 1⟩, ⟨2, 0⟩⟩ : Quad K).sample (1/4) - ⟨1/2, 0⟩) = 0 := by
+  constructor
+  · unfold Quad.lineIntersectionsT
+    have hv : ¬ (((0:K) == (Scalar.zero : K)) && ((1:K) == (Scalar.zero : K))) = true := by
+      rw [Bool.and_eq_true, beq_zero_iff, beq_zero_iff]; norm_num
+    rw [if_neg hv]
+    have hsq1 : Transc.sqrt ((-1:K) * -1 + 0 * 0) = 1 := by norm_num [hs1]
+    have hA : Quad.liA (⟨⟨0, 0⟩, ⟨1, 1⟩, ⟨2, 0⟩⟩ : Quad K) (Line.equation ⟨⟨1/2, 0⟩, ⟨0, 1⟩⟩) = 0 := by
+      simp only [geom, Nat.cast_one, hsq1]; norm_num
+    have hB : Quad.liB (⟨⟨0, 0⟩, ⟨1, 1⟩, ⟨2, 0⟩⟩ : Quad K) (Line.equation ⟨⟨1/2, 0⟩, ⟨0, 1⟩⟩) = -2 := by
+      simp only [geom, Nat.cast_one, hsq1]; norm_num
+    have hC : Quad.liC (⟨⟨0, 0⟩, ⟨1, 1⟩, ⟨2, 0⟩⟩ : Quad K) (Line.equation ⟨⟨1/2, 0⟩, ⟨0, 1⟩⟩) = 1/2 := by
+      simp only [geom, Nat.cast_one, hsq1]; norm_num
+    rw [hA, hB, hC, quad_solve_linear _ _ (by norm_num)]
+    norm_num
+  · simp only [geom, Nat.cast_one, Nat.cast_ofNat]; norm_num
+
+end quad
+
+/-! ### `cubic_polynomial_roots` and cubic × line (partial)
+
+Proved: the linear and quadratic sub-branches (taken when `|a| < epsilon`) return roots of the
+TRUNCATED polynomial, hence of the cubic when `a = 0`.  Missing (named gap): the Cardano branches
+(`pow(·, 1/3)`, `acos`, `cos` laws) — and they are not sound as coded, see the findings
+`cardano-double-root-eps` / `cardano-cancellation`; the tie and the oracle cover them. -/
+
+section cubic
+variable [Transc K] [Eps K]
+
+theorem cubic_roots_sound_partial_linear (e a b c d x : K) (he : 0 < e) (ha : |a| < e) (hb : |b| < e)
+    (hx : x ∈ Roots.rootsWith e a b c d) : c * x + d = 0 ∧ a * x * x * x + b * x * x + c * x + d = a * x * x * x + b * x * x := by
+  unfold Roots.rootsWith at hx
+  rw [if_pos (by rw [sc_abs]; exact ha), if_pos (by rw [sc_abs]; exact hb)] at hx
+  by_cases hc : Scalar.abs c < e
+  · rw [if_pos hc] at hx; cases hx
+  · rw [if_neg hc, List.mem_singleton] at hx
+    rw [sc_abs, not_lt] at hc
+    have hc0 : c ≠ 0 := by
+      intro h; rw [h, abs_zero] at hc; exact absurd he (not_lt.mpr hc)
+    have h1 : c * x + d = 0 := by
+      rw [hx]; field_simp; ring
+    exact ⟨h1, by linear_combination h1⟩
+
+theorem cubic_roots_sound_partial_quadratic (hsq : ∀ x : K, 0 ≤ x → Transc.sqrt x * Transc.sqrt x = x)
+    (e a b c d x : K) (he : 0 < e) (ha : |a| < e) (hb : ¬ |b| < e) (hΔ : 0 < Roots.qdelta b c d)
+    (hx : x ∈ Roots.rootsWith e a b c d) :
+    b * x * x + c * x + d = 0 ∧ a * x * x * x + b * x * x + c * x + d = a * x * x * x := by
+  unfold Roots.rootsWith at hx
+  rw [if_pos (by rw [sc_abs]; exact ha), if_neg (by rw [sc_abs]; exact hb)] at hx
+  unfold Roots.quadratic at hx
+  have hz : (Scalar.zero : K) = 0 := by simp [Scalar.zero]
+  rw [if_pos (by rw [hz]; exact hΔ)] at hx
+  have hb0 : b ≠ 0 := by
+    intro h; apply hb; rw [h, abs_zero]; exact he
+  have hr := hsq _ hΔ.le
+  have hΔe : Roots.qdelta b c d = c * c - 4 * b * d := by simp only [geom, Nat.cast_ofNat]
+  have hr2 := hr.trans hΔe
+  have h2b : (Scalar.two : K) * b ≠ 0 := by
+    simp only [geom, Nat.cast_ofNat]; exact mul_ne_zero two_ne_zero hb0
+  have h2 : (Scalar.two : K) = 2 := by simp only [geom, Nat.cast_ofNat]
+  have key : b * x * x + c * x + d = 0 := by
+    rw [List.mem_cons, List.mem_singleton] at hx
+    rcases hx with hx | hx
+    · have h : x * (2 * b) = -c - Transc.sqrt (Roots.qdelta b c d) := by
+        rw [hx, ← h2]; exact div_mul_cancel₀ _ h2b
+      set r := Transc.sqrt (Roots.qdelta b c d)
+      apply mul_left_cancel₀ (mul_ne_zero (four_ne_zero (α := K)) hb0)
+      linear_combination (x * (2 * b) + (-c - r) + 2 * c) * h + hr2
+    · have h : x * (2 * b) = -c + Transc.sqrt (Roots.qdelta b c d) := by
+        rw [hx, ← h2]; exact div_mul_cancel₀ _ h2b
+      set r := Transc.sqrt (Roots.qdelta b c d)
+      apply mul_left_cancel₀ (mul_ne_zero (four_ne_zero (α := K)) hb0)
+      linear_combination (x * (2 * b) + (-c + r) + 2 * c) * h + hr2
+  exact ⟨key, by linear_combination key⟩
+
+/-- the polynomial handed to the root finder vanishes exactly at the parameters whose point lies
+on the line (no normalisation here: `cross(vector, p - point)` itself) -/
+theorem cubic_line_poly (c : Cubic K) (l : Line K) (t : K) :
+    c.liCoefA l * t * t * t + c.liCoefB l * t * t + c.liCoefC l * t + c.liCoefD l
+      = -(l.vector.cross (c.sample t - l.point)) := by
+  simp only [geom, Nat.cast_one, Nat.cast_ofNat]; ring
+
+/-- every parameter returned by the cubic × line query is in `[0,1]` (range only; "on the line"
+holds in the sub-branches above, not in general) -/
+theorem cubic_line_roots_in_range (c : Cubic K) (l : Line K) (t : K) (ht : t ∈ c.lineIntersectionsT l) :
+    0 ≤ t ∧ t ≤ 1 := by
+  unfold Cubic.lineIntersectionsT at ht
+  split at ht
+  · cases ht
+  · exact (inUnit_iff t).mp (List.mem_filter.mp ht).2
+
+/-- lines whose direction vector is short (`|v|² < EPSILON`) are answered with "no intersection" -/
+theorem cubic_line_short_vector_none (c : Cubic K) (l : Line K) (h : l.vector.sqLen < Eps.epsilon) :
+    c.lineIntersectionsT l = [] := by
+  unfold Cubic.lineIntersectionsT
+  rw [if_pos h]
+
+/-- **Witness (defect)**: with `EPSILON = 1e-4` the vertical line through `(3/2, 0)` given by the
+vector `(0, 1/200)` crosses the cubic `(0,0) (1,2) (2,-2) (3,0)` at `t = 1/2`, and nothing is
+reported. -/
+theorem cubic_line_short_vector_witness (he : (Eps.epsilon : K) = 1 / 10000) :
+    (⟨⟨0, 0⟩, ⟨1, 2⟩, ⟨2, -2⟩, ⟨3, 0⟩⟩ : Cubic K).lineIntersectionsT ⟨⟨3/2, 0⟩, ⟨0, 1/200⟩⟩ = []
+    ∧ (⟨0, 1/200⟩ : P K).cross ((⟨⟨0, 0⟩, ⟨1, 2⟩, ⟨2, -2⟩, ⟨3, 0⟩⟩ : Cubic K).sample (1/2) - ⟨3/2, 0⟩) = 0 := by
+  constructor
+  · apply cubic_line_short_vector_none
+    rw [he]; simp only [geom]; norm_num
+  · simp only [geom, Nat.cast_one, Nat.cast_ofNat]; norm_num
+
+end cubic
 
 end Lyon.C12
